@@ -12,7 +12,7 @@ import (
 
 func init() {
 	register("C33", propMeta{
-		Explanation: "Decides the guards around what Get / Query may return; cosine values, distinctness and preservation across Optimize are NOT decided: (R1) Query: candidates are sorted by descending score before selection; the selection loop ranges over the sorted candidates in order, stops once k hits are taken (test at the top of every iteration), and appends a hit only when the Content entry was found, is not marked Deleted, decodes, and passes the filter (filter == nil || filter(payload)); deleted vector keys and nil vectors are skipped while collecting candidates; (R2) Get: an item is returned only when the Content entry was found and is not marked Deleted (both yield an error), and the vector is looked up under the (centroid, distance, id) key; (R3) Delete marks the Content key Deleted through UpdateCurrentKey before any success return for a found item, and Delete / Upsert / UpsertBatch refuse to run while the store is optimizing; (R4) generation agreement of the lazy migration: wherever a function of the package takes an item's centroid from the Next generation (NextCentroidID), it takes the distance from the same generation (NextDistance) on every path before the pair is used - a (new centroid, old distance) pair does not name any vector key.",
+		Explanation:  "Decides the guards around what Get / Query may return; cosine values, distinctness and preservation across Optimize are NOT decided: (R1) Query: candidates are sorted by descending score before selection; the selection loop ranges over the sorted candidates in order, stops once k hits are taken (test at the top of every iteration), and appends a hit only when the Content entry was found, is not marked Deleted, decodes, and passes the filter (filter == nil || filter(payload)); deleted vector keys and nil vectors are skipped while collecting candidates; (R2) Get: an item is returned only when the Content entry was found and is not marked Deleted (both yield an error), and the vector is looked up under the (centroid, distance, id) key; (R3) Delete marks the Content key Deleted through UpdateCurrentKey before any success return for a found item, and Delete / Upsert / UpsertBatch refuse to run while the store is optimizing; (R4) generation agreement of the lazy migration: wherever a function of the package takes an item's centroid from the Next generation (NextCentroidID), it takes the distance from the same generation (NextDistance) on every path before the pair is used - a (new centroid, old distance) pair does not name any vector key.",
 		DoesNotCover: "Ranking values (cosine), that hits are distinct when stale vectors exist, and that Optimize never loses, duplicates or resurrects items are value/history-level and not decided.",
 	}, runC33)
 }
@@ -148,7 +148,10 @@ func runC33(c *Ctx) {
 		okF := len(finds) >= 1
 		if okF {
 			fv := g.lhsVarOfCall(finds[0].n, finds[0].cs, 0)
-			fc := g.condNodes(func(e ast.Expr) bool { id, ok := e.(*ast.Ident); return ok && fv != nil && info.Uses[id] == types.Object(fv) })
+			fc := g.condNodes(func(e ast.Expr) bool {
+				id, ok := e.(*ast.Ident)
+				return ok && fv != nil && info.Uses[id] == types.Object(fv)
+			})
 			okF = len(fc) == 1 && len(g.notOnlyVia(fc, 1, itemRet)) == 0
 		}
 		c.Check(okF, r2, "Get: an id that was never stored is an error", f.Decl.Pos(), "items returned only when Content.Find found the id", "Get can return an item for an unknown id", nil)
@@ -184,7 +187,10 @@ func runC33(c *Ctx) {
 			ok := len(opt) == 1
 			if ok {
 				lv := gx.lhsVarOfCall(opt[0].n, opt[0].cs, 0)
-				lc := gx.condNodes(func(e ast.Expr) bool { id, isID := e.(*ast.Ident); return isID && lv != nil && fx.Pkg.TypesInfo.Uses[id] == types.Object(lv) })
+				lc := gx.condNodes(func(e ast.Expr) bool {
+					id, isID := e.(*ast.Ident)
+					return isID && lv != nil && fx.Pkg.TypesInfo.Uses[id] == types.Object(lv)
+				})
 				ok = len(lc) == 1
 				if ok {
 					r := gx.Reach(branchStarts(lc, 1), isReturn, nil)
